@@ -80,53 +80,53 @@ Proof.
   rewrite <- app_assoc. reflexivity.
 Qed.
 
-Definition S0 (l o : list Z) log : state := (map (@ROk Z) l, map (@ROk Z) o, mkCons None None WaitA log).
-Definition SA x (l o : list Z) log : state := (map (@ROk Z) l, map (@ROk Z) o, mkCons (Some (ROk x)) None WaitB log).
-Definition SB y (l o : list Z) log : state := (map (@ROk Z) l, map (@ROk Z) o, mkCons None (Some (ROk y)) WaitA log).
-Definition SBoth x y (l o : list Z) log : state := (map (@ROk Z) l, map (@ROk Z) o, both lessR never (ROk x) (ROk y) log).
+Definition MS0 (l o : list Z) log : state := (map (@ROk Z) l, map (@ROk Z) o, mkCons None None WaitA log).
+Definition MSA x (l o : list Z) log : state := (map (@ROk Z) l, map (@ROk Z) o, mkCons (Some (ROk x)) None WaitB log).
+Definition MSB y (l o : list Z) log : state := (map (@ROk Z) l, map (@ROk Z) o, mkCons None (Some (ROk y)) WaitA log).
+Definition MBoth x y (l o : list Z) log : state := (map (@ROk Z) l, map (@ROk Z) o, both lessR never (ROk x) (ROk y) log).
 
 Definition out_of_fin (t : state) : option (list Z) := outcome (clog (snd (fin t))).
 
 Lemma machine_is_merge : forall n,
   (forall l o log fu, length l + length o <= n -> length l + length o < fu ->
-     out_of_fin (S0 l o log) = expect_out log (merge_fuel fu lessO l o)) /\
+     out_of_fin (MS0 l o log) = expect_out log (merge_fuel fu lessO l o)) /\
   (forall x l o log fu, S (length l) + length o <= n -> S (length l) + length o < fu ->
-     out_of_fin (SA x l o log) = expect_out log (merge_fuel fu lessO (x :: l) o)) /\
+     out_of_fin (MSA x l o log) = expect_out log (merge_fuel fu lessO (x :: l) o)) /\
   (forall y l o log fu, length l + S (length o) <= n -> length l + S (length o) < fu ->
-     out_of_fin (SB y l o log) = expect_out log (merge_fuel fu lessO l (y :: o))).
+     out_of_fin (MSB y l o log) = expect_out log (merge_fuel fu lessO l (y :: o))).
 Proof.
   induction n as [|n (IH0 & IHA & IHB)].
   - split; [|split]; try (intros; lia). intros l o log fu Hn Hfu. destruct l, o; cbn in Hn; try lia.
-    destruct fu as [|fu]; [lia|]. unfold out_of_fin, S0. rewrite fin_step by reflexivity. cbn [sstep wants cw map on_eof hb clog].
+    destruct fu as [|fu]; [lia|]. unfold out_of_fin, MS0. rewrite fin_step by reflexivity. cbn [sstep wants cw map on_eof hb clog].
     pose proof (fin_copyB [] [] log) as Hc. cbn [map] in Hc. rewrite Hc. cbn [merge_fuel]. unfold expect_out. rewrite app_nil_r. destruct (outcome log); [rewrite app_nil_r|]; reflexivity.
   - assert (HBoth : forall x y l o log fu, S (length l) + S (length o) <= S n -> S (length l) + S (length o) < fu ->
-              out_of_fin (SBoth x y l o log) = expect_out log (merge_fuel fu lessO (x :: l) (y :: o))).
-    { intros x y l o log fu Hn Hfu. destruct fu as [|fu]; [lia|]. cbn [merge_fuel]. unfold SBoth, both, lessR.
+              out_of_fin (MBoth x y l o log) = expect_out log (merge_fuel fu lessO (x :: l) (y :: o))).
+    { intros x y l o log fu Hn Hfu. destruct fu as [|fu]; [lia|]. cbn [merge_fuel]. unfold MBoth, both, lessR.
       destruct (lessO x y) as [[|]|]; cbn [to_res bind]; unfold emit; cbn [app].
-      - change (map (@ROk Z) l, map (@ROk Z) o, mkCons None (Some (ROk y)) WaitA (log ++ [ROk x])) with (SB y l o (log ++ [ROk x])).
+      - change (map (@ROk Z) l, map (@ROk Z) o, mkCons None (Some (ROk y)) WaitA (log ++ [ROk x])) with (MSB y l o (log ++ [ROk x])).
         rewrite (IHB y l o (log ++ [ROk x]) fu) by (cbn in *; lia). apply expect_snoc.
-      - change (map (@ROk Z) l, map (@ROk Z) o, mkCons (Some (ROk x)) None WaitB (log ++ [ROk y])) with (SA x l o (log ++ [ROk y])).
+      - change (map (@ROk Z) l, map (@ROk Z) o, mkCons (Some (ROk x)) None WaitB (log ++ [ROk y])) with (MSA x l o (log ++ [ROk y])).
         rewrite (IHA x l o (log ++ [ROk y]) fu) by (cbn in *; lia). apply expect_snoc.
       - unfold out_of_fin. rewrite (outcome_prefix_err log); [unfold expect_out; destruct (outcome log); reflexivity|].
         apply (fin_log_prefix (map (@ROk Z) l, map (@ROk Z) o, mkCons (Some (ROk x)) None WaitB (log ++ [RErr]))). }
     assert (HA : forall x l o log fu, S (length l) + length o <= S n -> S (length l) + length o < fu ->
-              out_of_fin (SA x l o log) = expect_out log (merge_fuel fu lessO (x :: l) o)).
-    { intros x l o log fu Hn Hfu. destruct fu as [|fu]; [lia|]. unfold out_of_fin, SA. rewrite fin_step by reflexivity.
+              out_of_fin (MSA x l o log) = expect_out log (merge_fuel fu lessO (x :: l) o)).
+    { intros x l o log fu Hn Hfu. destruct fu as [|fu]; [lia|]. unfold out_of_fin, MSA. rewrite fin_step by reflexivity.
       destruct o as [|y o]; cbn [sstep wants cw map on_eof on_recv ha hb clog].
       - unfold emit. cbn [app]. rewrite fin_copyA. cbn [merge_fuel]. unfold expect_out.
         rewrite outcome_app, outcome_app. cbn [outcome]. rewrite outcome_oks. destruct (outcome log); [|reflexivity].
         rewrite <- app_assoc. reflexivity.
       - apply (HBoth x y l o log (S fu)); cbn in *; lia. }
     assert (HB : forall y l o log fu, length l + S (length o) <= S n -> length l + S (length o) < fu ->
-              out_of_fin (SB y l o log) = expect_out log (merge_fuel fu lessO l (y :: o))).
-    { intros y l o log fu Hn Hfu. destruct fu as [|fu]; [lia|]. unfold out_of_fin, SB. rewrite fin_step by reflexivity.
+              out_of_fin (MSB y l o log) = expect_out log (merge_fuel fu lessO l (y :: o))).
+    { intros y l o log fu Hn Hfu. destruct fu as [|fu]; [lia|]. unfold out_of_fin, MSB. rewrite fin_step by reflexivity.
       destruct l as [|x l]; cbn [sstep wants cw map on_eof on_recv ha hb clog].
       - unfold emit. cbn [app]. rewrite fin_copyB. cbn [merge_fuel]. unfold expect_out.
         rewrite outcome_app, outcome_app. cbn [outcome]. rewrite outcome_oks. destruct (outcome log); [|reflexivity].
         rewrite <- app_assoc. reflexivity.
       - apply (HBoth x y l o log (S fu)); cbn in *; lia. }
     split; [|split; [exact HA|exact HB]].
-    intros l o log fu Hn Hfu. destruct fu as [|fu]; [lia|]. unfold out_of_fin, S0. rewrite fin_step by reflexivity.
+    intros l o log fu Hn Hfu. destruct fu as [|fu]; [lia|]. unfold out_of_fin, MS0. rewrite fin_step by reflexivity.
     destruct l as [|x l]; cbn [sstep wants cw map on_eof on_recv ha hb clog].
     + rewrite fin_copyB. cbn [merge_fuel]. unfold expect_out. rewrite outcome_app, outcome_oks. destruct (outcome log); reflexivity.
     + apply (HA x l o log (S fu)); cbn in *; lia.
@@ -139,8 +139,8 @@ Proof.
   intros l o. unfold merge_seq.
   rewrite (fin_any (map (@ROk Z) l, map (@ROk Z) o, mcons_init)) by (cbn; rewrite !map_length; lia).
   destruct (machine_is_merge (length l + length o)) as (H0 & _ & _).
-  change (map (@ROk Z) l, map (@ROk Z) o, @mcons_init Z) with (S0 l o []).
-  change (outcome (clog (snd (fin (S0 l o []))))) with (out_of_fin (S0 l o [])).
+  change (map (@ROk Z) l, map (@ROk Z) o, @mcons_init Z) with (MS0 l o []).
+  change (outcome (clog (snd (fin (MS0 l o []))))) with (out_of_fin (MS0 l o [])).
   rewrite (H0 l o [] (S (length l + length o))) by lia. unfold expect_out. cbn [outcome app].
   destruct (merge_fuel (S (length l + length o)) lessO l o); reflexivity.
 Qed.
